@@ -120,7 +120,8 @@ func (op Rset) Disassembler(arch *Arch, instr string) (string, error) {
 	reg_id := get_id(instr[:arch.R])
 	result := strings.ToLower(Get_register_name(reg_id)) + " "
 	value := get_id(instr[arch.R : int(arch.R)+rSize])
-	result += strconv.Itoa(value)
+	// The immediate is an unsigned register value (a 64-bit one with the top bit set does not fit an int)
+	result += strconv.FormatUint(uint64(value), 10)
 	return result, nil
 }
 
